@@ -443,6 +443,7 @@ Msg(m, id, i, kind) == [m |-> m, id |-> id, i |-> i, kind |-> kind]
 
 ClientSends(m, id, i, kind) ==
   /\ nsent < MaxMsgs /\ ~cgone /\ ~closed /\ Env
+  /\ prog["R"] # <<>>            \* (nobody reads any more: further messages change nothing)
   /\ nsent' = nsent + 1
   /\ w' = CSend_F(w, c, m, id, i, kind) /\ Chk(CSend_G(w, c, m, id, i), "CSend")
   /\ IF m \in {"abort", "closef"}
@@ -487,7 +488,7 @@ Environment ==
 Proj ==
   [I |-> [i \in Insts(w) |-> [src |-> w.I[i].src, xk |-> w.I[i].xk, em |-> w.I[i].em, nx |-> w.I[i].nx,
                               er |-> w.I[i].er, cp |-> w.I[i].cp]],
-   acks |-> w.acks, closeCalls |-> w.closeCalls, cend |-> w.cend, initFn |-> w.initFn]
+   acks |-> w.acks, closeCalls |-> w.closeCalls, cend |-> (w.cend \/ cgone), initFn |-> w.initFn]
 
 EnvNames == {"CSend", "SrvCancel", "InitTimeout", "Deadline", "Tick", "SrcEmit", "SrcEnd"}
 Next ==
